@@ -911,3 +911,66 @@ func init() {
 		Desc: "a consumer that keeps up with one Put every 4ms of virtual time (cooldown 10ms): the buffer must be trimmed while the traffic goes on",
 		Opts: vrt.Options{Delay: true}, Run: bReclaimBusy, Check: reclaimCheck(defaultPolicy)})
 }
+
+// B-close-slow (added after seed C12-r7a): Buffer.Close issued by another goroutine while a
+// user-supplied Cleaner callback is running (the cleanup goroutine holds the buffer's lock between
+// WaitCond's context check and its cond.Wait, and calls the Cleaner in between). The callback of
+// the k-th cleaner run (k enumerated) starts the closing goroutine and yields, so every placement
+// of Close's steps inside the callback is within reach at 0 deviations.
+func bCloseSlow() {
+	k := 1 + vrt.Choose(3, 0)
+	var (
+		h       = bufH{new(Buffer)} // assigned before the callback can run (it is read by the closing goroutine)
+		mu      sync.Mutex
+		calls   int
+		spawned bool
+		closed  = make(chan struct{})
+	)
+	cl := func(size int, offsets []int) int {
+		mu.Lock()
+		calls++
+		start := calls == k
+		if start {
+			spawned = true
+		}
+		mu.Unlock()
+		if start {
+			go func() {
+				defer close(closed)
+				h.closeB()
+			}()
+			vrt.Yield()
+			vrt.Yield()
+		}
+		return DefaultCleaner(size, offsets)
+	}
+	cfg := h.b.CleanerConfig()
+	cfg.Cooldown = 0
+	cfg.Cleaner = cl
+	if err := h.b.SetCleanerConfig(cfg); err != nil {
+		panic(err)
+	}
+	c := h.newC()
+	h.put(0, nil, 1, 2)
+	if _, ok := c.get(0, nil); ok {
+		c.commit()
+	}
+	h.put(0, nil, 3)
+	if _, ok := c.get(0, nil); ok {
+		c.commit()
+	}
+	h.closeB()
+	mu.Lock()
+	s := spawned
+	mu.Unlock()
+	if s {
+		<-closed
+	}
+	h.finish(c)
+}
+
+func init() {
+	vrt.Register(&vrt.Scenario{Name: "B-close-slow", Props: []string{"C12", "C11:race"}, Quick: 2, Thorough: 3,
+		Desc: "Buffer.Close from another goroutine while a custom Cleaner callback (k-th run, k in 1..3) is in progress, then Close again; no goroutine may be left",
+		Opts: vrt.Options{Delay: true}, Run: bCloseSlow, Check: bufferCheck(defaultPolicy)})
+}
